@@ -132,11 +132,42 @@ def gen_case(r, tier, force=None):
             d = r.below(nd)
             dur = r.choice([U, U, U, 2 * U, U + 1, U - 1, 3600 * SEC])
             o = r.below(3)
+            y = r.below(10)
             if denoms[d]["kind"] == "cl":
                 a = amount("cl")
-                ops.append({"k": "cllock", "o": o, "d": d, "amt": str(a), "dur": r.choice([U, U, 2 * U])})
+                if y < 3:
+                    v = r.below(nval) if not r.chance(1, 12) else nval
+                    ops.append({"k": "cldel", "o": o, "d": d, "amt": str(a), "v": v})
+                    if v < nval and denoms[d]["sf"]:
+                        last += 1
+                        locks[last] = {"owner": o, "d": d, "amt": a, "st": "del", "dur": U, "v": v}
+                    continue
+                dur = r.choice([U, U, 2 * U])
+                ops.append({"k": "cllock", "o": o, "d": d, "amt": str(a), "dur": dur})
             else:
                 a = amount("gamm")
+                if y < 3:
+                    # the message servers: an existing bonded lock of the same owner / denom / duration is topped up instead
+                    same = [i for i, l in locks.items() if l["owner"] == o and l["d"] == d and l["dur"] == (U if y < 2 else dur) and l["st"] in ("free", "del", "undel")]
+                    if y < 2:
+                        v = r.below(nval) if not r.chance(1, 12) else nval
+                        ops.append({"k": "lockdel", "o": o, "d": d, "amt": str(a), "v": v})
+                        if same:
+                            i = min(same)
+                            if locks[i]["st"] == "free" and v < nval and denoms[d]["sf"]:
+                                locks[i]["amt"] += a
+                                locks[i]["st"] = "del"
+                        elif v < nval and denoms[d]["sf"]:
+                            last += 1
+                            locks[last] = {"owner": o, "d": d, "amt": a, "st": "del", "dur": U, "v": v}
+                    else:
+                        ops.append({"k": "locktokens", "o": o, "d": d, "amt": str(a), "dur": dur})
+                        if same:
+                            locks[min(same)]["amt"] += a
+                        else:
+                            last += 1
+                            locks[last] = {"owner": o, "d": d, "amt": a, "st": "free", "dur": dur}
+                    continue
                 ops.append({"k": "lock", "o": o, "d": d, "amt": str(a), "dur": dur})
             last += 1
             locks[last] = {"owner": o, "d": d, "amt": a, "st": "free", "dur": dur}
@@ -414,6 +445,23 @@ def coq_case(c, o):
             continue
         if k == "lock":
             ops.append("OLock %s %s %s %s" % (zlit(op["o"]), zlit(op["d"]), zlit(int(op["amt"])), zlit(op["dur"])))
+        elif k == "locktokens":
+            ops.append("OLockTokens %s %s %s %s" % (zlit(op["o"]), zlit(op["d"]), zlit(int(op["amt"])), zlit(op["dur"])))
+        elif k == "lockdel":
+            ops.append("OLockAndDelegate %s %s %s %s" % (zlit(op["o"]), zlit(op["d"]), zlit(int(op["amt"])), zlit(op["v"])))
+        elif k == "cldel":
+            # the shares minted by the concentrated pool are an environment input read off the observation; a refused message
+            # is reproduced with a huge dummy amount (every refusal of the delegation part is independent of the amount then)
+            if cur["code"] == 0:
+                lk = [l for l in cur["locks"] if l[0] == cur["newid"]]
+                if len(lk) != 1:
+                    return None
+                amt_ = lk[0][3]
+            elif cur["code"] in (3, 5, 6, 7, 8):
+                amt_ = 10 ** 30
+            else:
+                return None
+            ops.append("OCreateAndDelegate %s %s %s %s" % (zlit(op["o"]), zlit(op["d"]), zlit(amt_), zlit(op["v"])))
         elif k == "cllock":
             # the lock holds the liquidity shares minted by the concentrated pool: an environment input read off the observation
             if cur["code"] != 0:
@@ -565,6 +613,9 @@ def oracle(c, o):
                     budget[key] = sum(1 for cn in r["conns"] if (cn[1], cn[2]) == key)
         if r["code"] == 0 and k == "topup" and op["id"] in conn:
             budget[conn[op["id"]]] = budget.get(conn[op["id"]], 0) + 2
+        if r["code"] == 0 and k in ("locktokens", "lockdel") and r["newid"] in plocks and r["newid"] in pconn:
+            # the message topped up an existing lock that was already delegated
+            budget[pconn[r["newid"]]] = budget.get(pconn[r["newid"]], 0) + 2
         for (d, vv), a in r["acc"].items():
             if not a["exists"]:
                 if a["shares"] or a["tokens"]:
